@@ -310,5 +310,77 @@ theorem apply_eq {h : Heap α} {a : Arr} (g : Geo a.v) (ok : ArrOK h a) {loc : I
       have := key vals 0 (by omega)
       simpa using this
 
+/-! ### `Apply` with no values -/
+
+/-- `Contiguous()` never panics when the four metadata lists have the same length (no other assumption) -/
+theorem contigLoop_total (v : View) (h1 : v.orig.length = v.dims.length) (h2 : v.step.length = v.dims.length)
+    (h3 : v.offset.length = v.dims.length) :
+    ∀ (i : Nat), i ≤ v.dims.length → ∀ (co : Int) (must : Bool), ∃ b, v.contigLoop i co must = .ok b
+  | 0, _, _, _ => ⟨true, rfl⟩
+  | i + 1, hi, co, must => by
+    have e1 : v.dims[i]? = some v.dims[i] := List.getElem?_eq_getElem (by omega)
+    have e2 : v.step[i]? = some v.step[i] := List.getElem?_eq_getElem (by omega)
+    have e3 : v.offset[i]? = some v.offset[i] := List.getElem?_eq_getElem (by omega)
+    have e4 : v.orig[i]? = some v.orig[i] := List.getElem?_eq_getElem (by omega)
+    unfold View.contigLoop
+    simp only [e1, e2, e3, e4]
+    obtain ⟨b, hb⟩ := contigLoop_total v h1 h2 h3 i (by omega) (co * v.dims[i]) (must || (v.dims[i] != v.orig[i]))
+    by_cases c1 : v.dims[i] > 1
+    · simp only [c1, if_true]
+      cases must with
+      | true => exact ⟨false, rfl⟩
+      | false =>
+        simp only [Bool.false_eq_true, if_false]
+        by_cases c2 : v.step[i] > 1
+        · simp only [c2, if_true]; exact ⟨false, rfl⟩
+        · simp only [c2, if_false]
+          by_cases c3 : v.offset[i] > co
+          · simp only [c3, if_true]; exact ⟨false, rfl⟩
+          · simp only [c3, if_false]; exact ⟨b, hb⟩
+    · simp only [c1, if_false]; exact ⟨b, hb⟩
+
+/-- `Apply` with an empty `vals` at an in-bounds `loc` changes nothing, on every path -/
+theorem apply_nil {h : Heap α} {a : Arr} (g : Geo a.v) (ok : ArrOK h a) {loc : Idx} {d : Nat} (step : Int)
+    (hloc : InBounds loc a.v.dims) (hd : d < a.v.dims.length) :
+    apply h a loc (d : Int) step ([] : List α) = .ok h := by
+  have hdl : d < loc.length := by rw [hloc.length]; exact hd
+  have hloop : (match loc[d]? with
+      | none => (oob : R (Heap α))
+      | some start => apply.go a loc step d start h 0 ([] : List α)) = .ok h := by
+    rw [List.getElem?_eq_getElem hdl]
+    rfl
+  unfold apply
+  have c1 : ¬ ((d : Int) < 0 ∨ (d : Int) ≥ (a.v.ndims : Int)) := by
+    simp only [View.ndims]; omega
+  simp only [c1, if_false, Int.toNat_natCast]
+  by_cases hC : a.isC = true
+  · simp only [hC, if_true]
+    exact hloop
+  · simp only [hC, Bool.false_eq_true, if_false]
+    have hsl := sliceInto_eq g loc ((uniform a.v.dims.length 1).set d (([] : List α).length : Int))
+      (some ((uniform a.v.dims.length 1).set d step)) hloc.length (by simp [stepOr])
+    simp only [slice, View.ndims, hsl, bind, Except.bind, pure, Except.pure]
+    obtain ⟨c, hc⟩ := contigLoop_total (sliceView a.v loc ((uniform a.v.dims.length 1).set d (([] : List α).length : Int))
+      (some ((uniform a.v.dims.length 1).set d step)))
+      (by simp [sliceView, g.rank_orig]) (by
+        simp only [sliceView, stepOr]
+        rw [mulL_length _ _ (by simp [g.rank_step]), g.rank_step]; simp)
+      (by simp [sliceView, g.rank_offset]) _ (Nat.le_refl _) 1 false
+    unfold View.contiguous
+    rw [hc]
+    cases c with
+    | false => simp only [Bool.false_eq_true, if_false]; exact hloop
+    | true =>
+      simp only [if_true]
+      obtain ⟨s, hs, hlen⟩ := ok.store
+      have hb := ok.base_nonneg
+      have hf := ok.fits
+      obtain ⟨p0, p1⟩ := addr_bounds g hloc
+      have e : (sliceView a.v loc ((uniform a.v.dims.length 1).set d (([] : List α).length : Int))
+          (some ((uniform a.v.dims.length 1).set d step))).start = addr a.v loc := rfl
+      rw [OW.NdC02.subslice_ok (a := { a with v := sliceView a.v loc _ _ }) hs (by rw [e]; exact p0)
+        (by simp) (by rw [e]; show _ ≤ (s.length : Int) - a.base; simp; omega)]
+      rfl
+
 end
 end OW.Nd
